@@ -28,6 +28,33 @@ package p2c
 //@   ensures [success-range] 0 <= c.success && c.success <= 1000
 //@   ensures [success-up] ok ==> c.success >= old(c.success)
 //@   ensures [success-down] !ok ==> c.success <= old(c.success)
+// an unacceptable completion that arrives later than the previous one strictly lowers a positive score
+// (so an all-failing backend reaches the unhealthy range after a bounded number of spaced completions)
+//@   ensures [success-strictly-down] !ok && ret(timex.Now) > old(c.last) && old(c.success) > 0 && old(c.lag) > 0 ==> c.success < old(c.success)
 //@   ensures [lag-between] min(old(c.lag), lagNow) <= c.lag && c.lag <= max(old(c.lag), lagNow)
 //@   ensures [lag-first] old(c.lag) == 0 ==> c.lag == lagNow
 //@   ensures [last] c.last == ret(timex.Now)
+
+//@ func (*subConn).healthy
+//@   prop C14
+//@   requires c != nil
+//@   ensures [threshold] result == (c.success > 500)
+//@   modifies nothing
+
+// choose: with one connection it is chosen; otherwise the lower-load one wins unless the other has not been
+// picked for more than a second (then that one is force-picked); the chosen one's pick time is stamped.
+//@ func (*p2cPicker).choose
+//@   prop C14
+//@   opaque load
+//@   requires c1 != nil
+//@   let now = ret(timex.Now)
+//@   let l1 = ret(load, 0, 1)
+//@   let l2 = ret(load, 0, 2)
+//@   ensures [single] c2 == nil ==> result == c1 && c1.pick == now
+//@   ensures [one-of-them] c2 != nil ==> result == c1 || result == c2
+//@   ensures [loser-forced-after-1s] c2 != nil && c1 != c2 && l1 > l2 && now - old(c1.pick) > 1000000000 ==> result == c1
+//@   ensures [loser-forced-after-1s-b] c2 != nil && c1 != c2 && l1 <= l2 && now - old(c2.pick) > 1000000000 ==> result == c2
+//@   ensures [lower-load-wins] c2 != nil && c1 != c2 && l1 > l2 && now - old(c1.pick) <= 1000000000 ==> result == c2
+//@   ensures [lower-load-wins-b] c2 != nil && c1 != c2 && l1 <= l2 && now - old(c2.pick) <= 1000000000 ==> result == c1
+//@   ensures [stamped] result.pick == now
+//@   ensures [loads-of] c2 != nil ==> calls(c1.load) >= 1 && calls(c2.load) >= 1 && arg(load, 0, 1) == c1 && arg(load, 0, 2) == c2
